@@ -352,7 +352,9 @@ CheckEnd(s, e) ==
     ELSE
       \* the target is gone; a directory may linger on disk until the end of the build only where the
       \* function itself made nested calls below its own target (their parents are removed at commit)
-      IF fr.kind = "bf" /\ e.real # "none"
+      \* (an exception outside the Exception hierarchy - e.base - leaves the whole build; what lies on disk
+      \* while it propagates is not judged, the rollback at the end of the build is)
+      IF fr.kind = "bf" /\ e.real # "none" /\ ~e.base
          /\ ~(e.real = "dir" /\ \E r \in AllRecs(fr.subs) : r.k = "bf" /\ fr.p \in ProperAnc(r.p))
       THEN "TargetAbsentAfterFail"
       ELSE IF fr.fin.out = "raise" THEN
@@ -583,7 +585,10 @@ ApplyEnd(s, e) ==
           s2 == [s1 EXCEPT !.live = st.live, !.outs = st.outs, !.bfs = st.bfs,
                            !.claimedF = st.claimedF, !.claimedS = st.claimedS, !.pend = NoPend,
                            !.targets = @ \cup st.claimedF,
-                           !.gone = @ \cup UNION {GoneBy(s, x.p) : x \in {y \in AllRecs(r.subs) : y.k = "bf" /\ ~y.sf}},
+                           \* applying a recorded *successful* nested output makes room for it like executing it would;
+                           \* applying a recorded failed one only moves a regular file at that very path aside (as
+                           \* built: stale outputs around it stay until they are requested or the build commits)
+                           !.gone = @ \cup UNION {GoneBy(s, x.p) : x \in {y \in AllRecs(r.subs) : y.k = "bf" /\ ~y.sf /\ ~y.raised}},
                            !.reused = @ \cup (DOMAIN st.outs \ DOMAIN s.outs),
                            !.st.reuse = @ + 1,
                            !.st.nestedreuse = @ + (IF \E i \in DOMAIN r.subs : r.subs[i].k # "q" THEN 1 ELSE 0),
